@@ -1,4 +1,5 @@
 import PermutaModel.Lemmas.C04MeshFinal
+import PermutaModel.Lemmas.C04MeshSyms
 import PermutaModel.Lemmas.C04Writes
 import PermutaModel.Lemmas.C04Cli
 import PermutaModel.Props.C01
@@ -396,6 +397,33 @@ theorem mem_meshAllSyms_act {m : Mesh} (hm : MeshOK m) (g : D8) (q : Mesh) :
   constructor
   · rintro ⟨h, rfl⟩; exact ⟨h.mul g, by rw [C04L.actMesh_mul hm]⟩
   · rintro ⟨h, rfl⟩; exact ⟨h.mul g.inv, by rw [C04L.actMesh_mul hm, mul_inv_cancel]⟩
+
+/-- **the orbit listing is the same list for every member of the orbit**: `MeshPatt.all_syms` (as the
+    canonical listing of the set: canonical representatives, duplicates merged, sorted by
+    `MeshPatt.__lt__`) of `g·m` is literally the listing of `m`, for every `g ∈ D8` and valid mesh `m` -/
+theorem meshAllSyms_act {m : Mesh} (hm : MeshOK m) (g : D8) :
+    meshAllSyms (g.actMesh m) = meshAllSyms m := by
+  have hcanon : ∀ (m' : Mesh), ∀ x ∈ (meshAllSymsList m').map meshCanon, meshCanon x = x := by
+    intro m' x hx
+    rw [List.mem_map] at hx
+    obtain ⟨y, _, rfl⟩ := hx
+    exact C04L.meshCanon_idem y
+  have hmem : ∀ (m' : Mesh) (x : Mesh), x ∈ (meshAllSymsList m').map meshCanon ↔ x ∈ meshAllSyms m' := by
+    intro m' x
+    unfold meshAllSyms
+    rw [List.mem_mergeSort, List.mem_eraseDups]
+  unfold meshAllSyms
+  apply C04L.meshCanon_listing_congr (hcanon _) (hcanon _)
+  intro x
+  rw [hmem, hmem, mem_meshAllSyms_act hm g]
+
+/-- non-vacuity: the hypothesis holds for a concrete mesh pattern whose eight images are pairwise
+    different, and the listing computed from its rotation is the listing computed from it -/
+example : MeshOK ⟨[0, 2, 1], [(0, 1)]⟩ ∧ (meshAllSymsList ⟨[0, 2, 1], [(0, 1)]⟩).Nodup ∧
+    meshAllSyms (meshRotate ⟨[0, 2, 1], [(0, 1)]⟩ 1) = meshAllSyms ⟨[0, 2, 1], [(0, 1)]⟩ := by
+  refine ⟨⟨by decide, by decide⟩, by decide, ?_⟩
+  rw [meshRotate_eq_act]
+  exact meshAllSyms_act ⟨by decide, by decide⟩ _
 
 /-! ## M2 equivariance of mesh containment -/
 
